@@ -293,7 +293,11 @@ b`
 			if i > 0 {
 				b.WriteByte(',')
 			}
-			b.WriteString(fmt.Sprintf(`"k%d":`, i%(1+n/2)))
+			if i%11 == 10 {
+				b.WriteString(`"` + strings.Repeat("long_key_", 4+i%9) + fmt.Sprint(i) + `\u0041":`)
+			} else {
+				b.WriteString(fmt.Sprintf(`"k%d":`, i%(1+n/2)))
+			}
 			if i%7 == 0 {
 				Value(t, b, 1)
 			} else {
